@@ -124,21 +124,21 @@ theorem runHist_logs_prefix (strict : Bool) (s : State) (ops : List Op) :
     obtain ⟨e2, h2⟩ := ih (step strict s op).1
     exact ⟨e1 ++ e2, by simp only [runHist]; rw [h2, h1, List.append_assoc]⟩
 
-theorem step_replay (strict : Bool) (now' : Time) (s r : State) (op : Op) (rest : List Log)
-    (hinv : Inv s.db s.seq) (hw : Map.WF s.db.volumes) (hr : r.db = s.db)
-    (hsafe : ((step strict s op).1.db.logs.drop s.db.logs.length).all (logSafe s.db (step strict s op).1.db) = true) :
-    ∃ r', importFrom now' r (maxLogId r.db) (((step strict s op).1.db.logs.drop s.db.logs.length) ++ rest)
+theorem step_replay (strict : Bool) (now' : Time) (s r : State) (op : Op) (rest : List Log) (vR : PCV)
+    (hinv : Inv s.db s.seq) (hr : r.db = s.db.withVol vR) (hv : VolRel s.db.volumes vR)
+    (hsafe : ((step strict s op).1.db.logs.drop s.db.logs.length).all (logSafe s.db) = true) :
+    ∃ r' vR', importFrom now' r (maxLogId r.db) (((step strict s op).1.db.logs.drop s.db.logs.length) ++ rest)
             = importFrom now' r' (maxLogId r'.db) rest ∧
-          r'.db = (step strict s op).1.db ∧ Map.WF (step strict s op).1.db.volumes := by
+          r'.db = (step strict s op).1.db.withVol vR' ∧ VolRel (step strict s op).1.db.volumes vR' := by
   have hpost := step_inv strict s op hinv
   unfold step at *
   simp only at hsafe hpost ⊢
   rcases forgeLog_ending strict op [] false s with ⟨hu, _, _⟩ | ⟨st0, st, log, hn, f', n, _, h0, _, hrun, hc⟩
   · have hu' : (forgeLog strict op [] false s).state.db = s.db := hu
-    refine ⟨r, ?_, ?_, ?_⟩
+    refine ⟨r, vR, ?_, ?_, ?_⟩
     · rw [hu', List.drop_length, List.nil_append]
     · rw [hu', hr]
-    · rw [hu']; exact hw
+    · rw [hu']; exact hv
   · have ha := run_runLog_ok op.now hn f' strict op.kind op.ik op.ihash op.sv n st0 st log hrun
     have hdb : (forgeLog strict op [] false s).state.db = st.db := by rw [hc.1]
     have hlogs : st.db.logs = s.db.logs ++ [log] := by rw [← h0]; exact ha.logs
@@ -150,19 +150,20 @@ theorem step_replay (strict : Bool) (now' : Time) (s r : State) (op : Op) (rest 
       have := hpost.logSorted
       rw [hlogs] at this
       exact (List.pairwise_append.mp this).2.2 x hx log List.mem_cons_self
-    obtain ⟨hev, hwf⟩ := runLog_replay op.now now' hn f' strict op.kind op.ik op.ihash op.sv n st0 st log r.seq hrun
-      (by rw [h0]; exact hw) (by rw [h0]; exact hsafe)
+    obtain ⟨vR', hev, hrel⟩ := runLog_replay op.now now' hn f' strict op.kind op.ik op.ihash op.sv n st0 st log r.seq vR hrun
+      (by rw [h0]; exact hv) (by rw [h0]; exact hsafe)
     rw [h0, ← hr] at hev
-    have hone := importOne_ok now' r log st.db hev
-    refine ⟨{ db := st.db, seq := r.seq }, ?_, rfl, hwf⟩
+    have hone := importOne_ok now' r log (st.db.withVol vR') hev
+    have hrlogs : r.db.logs = s.db.logs := by rw [hr]; rfl
+    refine ⟨{ db := st.db.withVol vR', seq := r.seq }, vR', ?_, rfl, hrel⟩
     simp only [List.cons_append, List.nil_append]
     simp only [importFrom, hone]
-    rw [maxLogId_snoc s.db st.db log hlogs hlt]
+    rw [maxLogId_snoc r.db (st.db.withVol vR') log (by rw [hrlogs]; exact hlogs) (by rw [hrlogs]; exact hlt)]
     cases hm : maxLogId r.db with
     | none => simp only [Bool.false_eq_true, ↓reduceIte]
     | some m =>
       obtain ⟨x, hx, hxm⟩ := maxLogId_mem r.db m hm
-      rw [hr] at hx
+      rw [hrlogs] at hx
       have h1 := hlt x hx
       rw [hxm] at h1
       simp only [decide_eq_true_eq, if_neg (Nat.not_le.mpr h1)]
@@ -171,23 +172,23 @@ theorem drop_prefix_split (l0 e1 e2 : List Log) :
     (l0 ++ e1 ++ e2).drop l0.length = ((l0 ++ e1).drop l0.length) ++ ((l0 ++ e1 ++ e2).drop (l0 ++ e1).length) := by
   rw [List.append_assoc, List.drop_left, List.drop_left, ← List.append_assoc, List.drop_left]
 
-theorem runHist_replay (strict : Bool) (now' : Time) (ops : List Op) (s r : State)
-    (hinv : Inv s.db s.seq) (hw : Map.WF s.db.volumes) (hr : r.db = s.db)
+theorem runHist_replay (strict : Bool) (now' : Time) (ops : List Op) (s r : State) (vR : PCV)
+    (hinv : Inv s.db s.seq) (hr : r.db = s.db.withVol vR) (hv : VolRel s.db.volumes vR)
     (hsafe : replaySafe strict s ops = true) :
-    ∃ r', importFrom now' r (maxLogId r.db) ((runHist strict s ops).db.logs.drop s.db.logs.length) = (r', none) ∧
-          r'.db = (runHist strict s ops).db := by
-  induction ops generalizing s r with
+    ∃ r' vR', importFrom now' r (maxLogId r.db) ((runHist strict s ops).db.logs.drop s.db.logs.length) = (r', none) ∧
+          r'.db = (runHist strict s ops).db.withVol vR' ∧ VolRel (runHist strict s ops).db.volumes vR' := by
+  induction ops generalizing s r vR with
   | nil =>
-    refine ⟨r, ?_, hr⟩
+    refine ⟨r, vR, ?_, hr, hv⟩
     simp only [runHist, List.drop_length, importFrom]
   | cons op rest ih =>
     simp only [replaySafe, Bool.and_eq_true] at hsafe
     obtain ⟨e1, h1⟩ := step_logs_prefix strict s op
     obtain ⟨e2, h2⟩ := runHist_logs_prefix strict (step strict s op).1 rest
-    obtain ⟨r1, hstep, hr1, hw1⟩ := step_replay strict now' s r op
-      ((runHist strict (step strict s op).1 rest).db.logs.drop (step strict s op).1.db.logs.length) hinv hw hr hsafe.1
-    obtain ⟨r2, hrest, hr2⟩ := ih (step strict s op).1 r1 (step_inv strict s op hinv) hw1 hr1 hsafe.2
-    refine ⟨r2, ?_, hr2⟩
+    obtain ⟨r1, v1, hstep, hr1, hv1⟩ := step_replay strict now' s r op
+      ((runHist strict (step strict s op).1 rest).db.logs.drop (step strict s op).1.db.logs.length) vR hinv hr hv hsafe.1
+    obtain ⟨r2, v2, hrest, hr2, hv2⟩ := ih (step strict s op).1 r1 v1 (step_inv strict s op hinv) hr1 hv1 hsafe.2
+    refine ⟨r2, v2, ?_, hr2, hv2⟩
     simp only [runHist]
     have hsplit : (runHist strict (step strict s op).1 rest).db.logs.drop s.db.logs.length =
         ((step strict s op).1.db.logs.drop s.db.logs.length) ++
@@ -195,22 +196,46 @@ theorem runHist_replay (strict : Bool) (now' : Time) (ops : List Op) (s r : Stat
       rw [h2, h1]
       exact drop_prefix_split _ _ _
     rw [hsplit, hstep]
-    rw [hr1] at hrest ⊢
     exact hrest
+
+theorem norm_withVol (d : Db) (v : PCV) (h : VolRel d.volumes v) : (d.withVol v).norm = d.norm := by
+  unfold Db.norm Db.withVol
+  simp only [h.norm_eq]
 
 /-- **Replay reproduces the tables**: for every history whose committed logs are all
     `logSafe`, `Export` (logs in id order) followed by `Import` into an empty ledger
-    succeeds and yields exactly the same tables — at any import clock `now'`. -/
+    succeeds and yields the same tables — every table equal, `accounts_volumes` up to
+    `(0,0)` rows (`Db.norm`) — at any import clock `now'`. -/
 theorem replay_reproduces_safe (strict : Bool) (now' : Time) (ops : List Op) (hsafe : replaySafe strict {} ops = true) :
     (importLogs now' {} (exportLogs (runHist strict {} ops))).2 = none ∧
-    (importLogs now' {} (exportLogs (runHist strict {} ops))).1.db = (runHist strict {} ops).db := by
+    (importLogs now' {} (exportLogs (runHist strict {} ops))).1.db.norm = (runHist strict {} ops).db.norm := by
   have hinv := runHist_inv strict {} ops Inv.empty
   rw [exportLogs_sorted _ hinv.logSorted]
-  obtain ⟨r', h, hr'⟩ := runHist_replay strict now' ops {} {} Inv.empty Map.WF_nil rfl hsafe
+  obtain ⟨r', v', h, hr', hv'⟩ := runHist_replay strict now' ops {} {} [] Inv.empty rfl (VolRel.refl Map.WF_nil) hsafe
   unfold importLogs
   simp only [List.drop_zero, List.length_nil] at h
   have h' : importFrom now' {} (maxLogId ({} : State).db) (runHist strict {} ops).db.logs = (r', none) := h
   rw [h']
-  exact ⟨rfl, hr'⟩
+  refine ⟨rfl, ?_⟩
+  show r'.db.norm = _
+  rw [hr']
+  exact norm_withVol _ _ hv'
+
+/-- The tables other than `accounts_volumes` are equal outright, and the copy's
+    volumes are the source's minus some `(0,0)` rows. -/
+theorem replay_reproduces_tables (strict : Bool) (now' : Time) (ops : List Op) (hsafe : replaySafe strict {} ops = true) :
+    let c := (importLogs now' {} (exportLogs (runHist strict {} ops))).1.db
+    let d := (runHist strict {} ops).db
+    c.txs = d.txs ∧ c.accounts = d.accounts ∧ c.logs = d.logs ∧ c.schemas = d.schemas ∧ VolRel d.volumes c.volumes := by
+  have hinv := runHist_inv strict {} ops Inv.empty
+  rw [exportLogs_sorted _ hinv.logSorted]
+  obtain ⟨r', v', h, hr', hv'⟩ := runHist_replay strict now' ops {} {} [] Inv.empty rfl (VolRel.refl Map.WF_nil) hsafe
+  unfold importLogs
+  simp only [List.drop_zero, List.length_nil] at h
+  have h' : importFrom now' {} (maxLogId ({} : State).db) (runHist strict {} ops).db.logs = (r', none) := h
+  rw [h']
+  show r'.db.txs = _ ∧ r'.db.accounts = _ ∧ r'.db.logs = _ ∧ r'.db.schemas = _ ∧ VolRel _ r'.db.volumes
+  rw [hr']
+  exact ⟨rfl, rfl, rfl, rfl, hv'⟩
 
 end Ledger.Ctrl
